@@ -4,7 +4,7 @@ from common import *
 
 N1 = 65536        # 10.1.0.0
 N2 = 131072       # 10.2.0.0
-OPT_CODES = [1, 2, 3, 6, 15, 26, 28, 42, 114, 119]
+OPT_CODES = [1, 2, 3, 6, 15, 26, 28, 42, 114, 119, 252]      # (252: an option code above 127)
 
 
 def ipstr(x):
